@@ -404,6 +404,8 @@ func runOwnership(id string, parts []string) string {
 			err = c20Stream(f["sc"], f["sched"], mode, rng, &o)
 		case "pipeline":
 			err = c20Pipeline(f["sched"], rng, &o)
+		case "doh", "doh2":
+			err = c20DoH(f["sc"], f["sched"], mode, rng, &o)
 		default:
 			return "HARNESS-ERROR unknown scenario"
 		}
@@ -416,7 +418,7 @@ func runOwnership(id string, parts []string) string {
 		}
 		viol := 0
 		for _, w := range o.wires {
-			if w != "own" && w != "none" {
+			if w != "own" && w != "own2" && w != "none" {
 				viol = 1
 			}
 		}
